@@ -33,9 +33,11 @@ type prunerProc struct {
 	floor  *pruner.RetentionFloor
 	l1Feed *feed.Feed[*core.L1Head]
 	l2Feed *feed.Feed[*core.Block]
+	l1Sub  *feed.Subscription[*core.L1Head]
 	cancel context.CancelFunc
 	done   chan error
 	exited bool
+	ticker bool // the sample ticker is fast (prunerCfg.Tick > 0): chain-height reads are not only event handlers
 
 	mu     sync.Mutex
 	events []prEvent
@@ -95,7 +97,9 @@ func startPruner(inner *memory.Database, floor *pruner.RetentionFloor, c prunerC
 	} else {
 		opts = append(opts, pruner.WithFloorTickInterval(24*time.Hour)) // the sample is refreshed only by restarting (seedFloor)
 	}
-	pr := pruner.New(p.hdb, floor, c.Retained, p.l2Feed.Subscribe(), p.l1Feed.Subscribe(), log.NewNopZapLogger(), opts...)
+	p.l1Sub = p.l1Feed.Subscribe()
+	p.ticker = c.Tick > 0 && c.MinAge > 0
+	pr := pruner.New(p.hdb, floor, c.Retained, p.l2Feed.Subscribe(), p.l1Sub, log.NewNopZapLogger(), opts...)
 	ctx, cancel := context.WithCancel(context.Background())
 	p.cancel = cancel
 	go func() { p.done <- pr.Run(ctx) }()
@@ -127,6 +131,15 @@ func (p *prunerProc) take() []prEvent {
 func (p *prunerProc) sendL1(n uint64) ([]prEvent, error) {
 	c := p.hdb.heightReads.Load()
 	p.l1Feed.Send(&core.L1Head{BlockNumber: n})
+	if p.ticker {
+		// with a fast sample ticker a chain-height read may be a tick: the event has been taken when the
+		// subscription's one-slot buffer is empty again (the dispatch loop is sequential: the sentinel of settle is
+		// handled after the handler of this event has returned)
+		if !p.waitFor(func() bool { return len(p.l1Sub.Recv()) == 0 || p.isDone() }) {
+			return nil, fmt.Errorf("L1 event %d not taken within %v", n, waitLimit)
+		}
+		return p.settle()
+	}
 	if !p.waitFor(func() bool { return p.hdb.heightReads.Load() > c || p.isDone() }) {
 		return nil, fmt.Errorf("L1 event %d not taken within %v", n, waitLimit)
 	}
@@ -176,6 +189,14 @@ func (p *prunerProc) stop() {
 		}
 		p.exited = true
 	}
+}
+
+// awaitFullTick returns once a tick of the sample ticker that STARTED after the call has run to its end: the
+// second chain-height read after the call belongs to a later tick (no event is in flight), and the dispatch loop is
+// sequential.
+func (p *prunerProc) awaitFullTick() bool {
+	c := p.hdb.heightReads.Load()
+	return p.waitFor(func() bool { return p.hdb.heightReads.Load() >= c+2 || p.isDone() }) && !p.isDone()
 }
 
 // awaitTick returns once a tick of the sample ticker has started after the call (sampleHeight reads the chain
